@@ -9,7 +9,7 @@ import vf, os, json, hashlib
 import witgen, c28_gen
 
 LEVEL = "proof"
-READY = False
+READY = True
 TARGETS = ["theories/Props/C28.vo", "theories/Extract/ExTypesEq.vo"]
 THEOREMS = ["C28_comparison_is_structural_equality", "C28_union_find_sound", "C28_classes_exact",
             "C28_first_earlier_equal", "C28_content_facts", "C28_usage_facts", "C28_error_fact_partial",
